@@ -130,8 +130,6 @@ func TestG2(t *testing.T) {
 		t.Fatal("cofactor-cleared twist point does not have order n (wrong twist?)")
 	}
 	// and a raw twist point generally does not
-	x := q.X
-	_ = x
 	raw := func() G2 {
 		for j := int64(1); ; j++ {
 			x := F2(j, 1)
